@@ -309,7 +309,43 @@ def canon_tokens(tokens):
     return tuple(out)
 
 
-def run_serialize_op(ser, op):
+def _edit_tree(tree, builder):
+    """What an application does between two renderings of one document: change, add and remove attributes, change text."""
+    if builder.startswith("dom"):
+        n = 0
+        stack = [tree]
+        while stack and n < 30:
+            node = stack.pop()
+            if node.nodeType == node.ELEMENT_NODE:
+                names = [node.attributes.item(i).name for i in range(node.attributes.length)]
+                if names:
+                    node.setAttribute(names[0], "edited")
+                    if len(names) > 1 and ":" not in names[-1]:
+                        node.removeAttribute(names[-1])
+                node.setAttribute("data-edit", str(n))
+                n += 1
+            elif node.nodeType == node.TEXT_NODE:
+                node.data = node.data + "+"
+            stack.extend(node.childNodes)
+        return
+    root = tree.getroot() if hasattr(tree, "getroot") else tree
+    n = 0
+    for el in root.iter():
+        if isinstance(el.tag, str) and el.tag != "<!DOCTYPE>" and not el.tag.startswith("DOCUMENT_"):
+            names = list(el.attrib)
+            if names:
+                el.attrib[names[0]] = "edited"
+                if len(names) > 1:
+                    del el.attrib[names[-1]]
+            el.set("data-edit", str(n))
+            if el.text:
+                el.text = el.text + "+"
+            n += 1
+            if n >= 30:
+                break
+
+
+def run_serialize_op(ser, op, cfg=None):
     """Parse op['doc'] with a fresh parser, walk it, serialize with `ser`."""
     try:
         p = new_parser({"builder": op["builder"], "ns": True, "strict": False})
@@ -335,6 +371,16 @@ def run_serialize_op(ser, op):
         # serialize() is a generator: with take == 0 its body never ran, so
         # .errors still describes the previous call by design of the API
         errs = tuple(ser.errors) if take != 0 else ("not-started",)
+        if op.get("reser") and take is None and cfg is not None:
+            # the application edits the document and renders it again with the SAME serializer and the SAME walker object
+            # (`stream` is re-iterable); a brand-new serializer with a brand-new walker over the edited tree is the reference
+            _edit_tree(tree, op["builder"])
+            sep = b"" if op.get("encoding") else ""
+            again = sep.join(ser.serialize(stream, op.get("encoding")))
+            errs2 = tuple(ser.errors)
+            ref_ser = new_serializer(cfg)
+            ref = sep.join(ref_ser.serialize(walker(tree), op.get("encoding")))
+            return ("ok", joined, errs, take, (again == ref and errs2 == tuple(ref_ser.errors)), again)
         return ("ok", joined, errs, take)
     except SerializeError:
         return ("serialize_error", tuple(ser.errors))
@@ -369,7 +415,11 @@ def run_walk_op(op):
             if "name" in t:
                 t["name"] = str(t["name"]) + "-poked"
         d = canon_tokens(list(cls(tree)))
-        return ("ok", a, b == a, c == a and d == a)
+        # ... and the application may change the TREE and walk it again with the walker object it already has
+        _edit_tree(tree, op["builder"])
+        e1 = canon_tokens(list(w))
+        e2 = canon_tokens(list(cls(tree)))
+        return ("ok", a, b == a, c == a and d == a and e1 == e2, e2)
     except Exception as e:
         return ("raise", type(e).__name__, str(e)[:200])
 
@@ -461,7 +511,7 @@ def exec_op(obj, cfg, op, log_holder=None):
     if kind in ("parse", "frag", "parse_bytes"):
         return run_parse_op(obj, cfg, op, log_holder)
     if kind == "serialize":
-        return run_serialize_op(obj, op)
+        return run_serialize_op(obj, op, cfg)
     if kind == "walk":
         return run_walk_op(op)
     if kind == "pipeline":
@@ -687,6 +737,50 @@ TWIN_FAMILIES = [
 ]
 
 
+# the same for serializers: documents that differ in what a serializer decision depends on (the attribute VALUE for the
+# choice of quotes, the NEXT token for the omission of an optional tag, element AND attribute for boolean minimisation,
+# the element for escaping of its text, the characters for what the output encoding can represent)
+SER_TWIN_FAMILIES = [
+    ["<a title=x>t</a>", "<a title='x y'>t</a>", "<a title='x\"y'>t</a>", "<a title=\"x'y\">t</a>", "<a title=\"x'y&quot;z\">t</a>", "<a title=''>t</a>",
+     "<a title='a=b'>t</a>", "<a title='a>b'>t</a>", "<a title='a`b'>t</a>", "<a title='a&amp;b'>t</a>", "<a title='a<b'>t</a>", "<a title='x\ty'>t</a>"],
+    ["<p>a<p>b", "<p>a</p>text", "<p>a<div>b</div>", "<p>a</p><!--c-->", "<div><p>a</div>", "<p>a<address>b", "<p>a<span>b</span>"],
+    ["<ul><li>a<li>b</ul>", "<ul><li>a</li>x<li>b</ul>", "<ul><li>a</ul>", "<dl><dt>a<dd>b</dl>", "<dl><dt>a<dt>b</dl>", "<dl><dd>a</dd>x</dl>"],
+    ["<table><tr><td>a<td>b</table>", "<table><tr><td>a</td>x</table>", "<table><tbody><tr><td>a</table>", "<table><thead><tr><th>a<tbody><tr><td>b</table>",
+     "<table><colgroup><col><tr><td>a</table>", "<table><colgroup> <col></table>", "<table><tfoot><tr><td>a</table>", "<table><caption>c</caption><tr><td>a</table>"],
+    ["<html><head><title>t</title></head><body>x", "<html><!--c--><head></head><body>x", "<html><head></head><body><!--c-->x", "<html><head></head><body> x",
+     "<html><head><!--c--></head><body>x", "<html><head> </head><body>x", "<html lang=en><head></head><body class=a>x"],
+    ["<input disabled=disabled>", "<input disabled=x>", "<input disabled>", "<div disabled=disabled>", "<option selected=selected>", "<a selected=selected>",
+     "<input checked=checked disabled=disabled>", "<img ismap=ismap>", "<input DISABLED=disabled>", "<td nowrap=nowrap>", "<input disabled=''>"],
+    ["<script>a<b</script>", "<style>a&b</style>", "<textarea>a<b</textarea>", "<title>a&amp;b</title>", "<p>a&amp;b&lt;c", "<xmp>a<b</xmp>",
+     "<script>a&amp;b</script>", "<p>a&gt;b", "<plaintext>a<b", "<iframe>a<b</iframe>", "<noscript>a<b</noscript>"],
+    ["<br>x", "<img src=a>x", "<p><br></p>", "<svg><br/></svg>", "<input>x", "<hr>x", "<svg><g/>x</svg>", "<wbr>x"],
+    ["<p>caf\xe9", "<p>\u20ac5", "<p title=\xe9>x", "<p>\u0416", "<p>\U0001f600", "<p>plain", "<p>&nbsp;x", "<p title='\u20ac'>x"],
+    ["<pre> a  b </pre>", "<p> a  b </p>", "<textarea> a  b </textarea>", "<b> </b>", "<p>a\n\nb", "<pre>\n\na</pre>", "<script> a  b </script>", "<p>\t a"],
+    ["<!DOCTYPE html>", "<!DOCTYPE html PUBLIC \"a\" \"b\">", "<!DOCTYPE html SYSTEM \"a'b\">", "<!DOCTYPE html SYSTEM 'a\"b'>", "<!DOCTYPE html PUBLIC \"a\">", "<!DOCTYPE>"],
+    ["<head><meta charset=ascii><title>t</title>", "<head><meta http-equiv=content-type content='text/html; charset=ascii'>", "<head><title>t</title>",
+     "<head><meta name=x content=y>", "<head><meta charset=ascii><meta charset=utf-8>", "<meta charset=x>"],
+    ["<a href=javascript:x>y</a>", "<a href=http://x/>y</a>", "<a href=' javascript:x'>y</a>", "<a href=data:text/html,x>y</a>", "<a href=mailto:a@b>y</a>",
+     "<img src=javascript:x>", "<a xlink:href=javascript:x>y</a>", "<a href=HTTP://x>y</a>"],
+    ["<b style='color:red'>x</b>", "<b style='background:url(x)'>x</b>", "<b style='color:expression(x)'>x</b>", "<b style=''>x</b>", "<b style='width:1px;color:blue'>x</b>"],
+    ["<svg><a xlink:href=u>x</a></svg>", "<svg><a href=u>x</a></svg>", "<math><mi xlink:href=u>x</mi></math>", "<svg xml:lang=en>x</svg>", "<svg viewBox=1>x</svg>"],
+    ["<!--a-->", "<!--a--b-->", "<!---->", "<!--a-b-->", "<!-- - -->", "<!--[if IE]>x<![endif]-->"],
+]
+
+
+def gen_ser_twin_pair(rng, oi):
+    fam = rng.choice(SER_TWIN_FAMILIES)
+    a, b = rng.sample(fam, 2)
+    builder = rng.choice(["etree", "dom"])
+    enc = rng.choice(ENCODINGS_OUT)
+    ops = []
+    for text in (a, b):
+        ops.append({"op": "serialize", "obj": oi, "doc": [text], "builder": builder if rng.random() < 0.8 else rng.choice(["etree", "dom"]),
+                    "encoding": enc if rng.random() < 0.7 else rng.choice(ENCODINGS_OUT)})
+    if rng.random() < 0.3:
+        ops.append(dict(ops[0]))
+    return ops
+
+
 def gen_twin_pair(rng, n_parsers, cfgs):
     fam = rng.choice(TWIN_FAMILIES)
     a, b = rng.sample(fam, 2)
@@ -746,6 +840,8 @@ def gen_history(rng, stream):
                   "builder": rng.choice(["etree", "dom"]), "encoding": rng.choice(ENCODINGS_OUT)}
             if faulty and rng.random() < 0.35:
                 op["take"] = rng.randint(0, 12)
+            elif rng.random() < 0.25:
+                op["reser"] = True       # the tree is edited and rendered again with the same serializer and walker object
             ops.append(op)
             pending_observer = None
             continue
@@ -766,6 +862,12 @@ def gen_history(rng, stream):
         ops = case["ops"]
         pos = rng.randint(0, len(ops))
         pair = gen_twin_pair(rng, n_parsers, objs)
+        k = rng.randint(0, 1)
+        case["ops"] = ops[:pos] + pair[:1] + ops[pos:pos + k] + pair[1:] + ops[pos + k:]
+    if n_ser and rng.random() < 0.35:
+        ops = case["ops"]
+        pos = rng.randint(0, len(ops))
+        pair = gen_ser_twin_pair(rng, rng.randrange(n_parsers, len(objs)))
         k = rng.randint(0, 1)
         case["ops"] = ops[:pos] + pair[:1] + ops[pos:pos + k] + pair[1:] + ops[pos + k:]
     return case
@@ -1071,6 +1173,13 @@ def execute(case):
                 f["strict_serialize_error"] = f.get("strict_serialize_error", 0) + 1
             if out[0] == "ok" and out[3] is not None:
                 f["serializer_generator_abandoned"] = f.get("serializer_generator_abandoned", 0) + 1
+            if out[0] == "ok" and len(out) == 6:
+                P["rendered_again_after_tree_edit"] += 1
+                if out[4] is not True:
+                    failure = ("reuse", "op %d (serialize on object %d): after the caller edited the tree, the same serializer with the "
+                               "same walker object renders %s - a brand-new serializer with a brand-new walker renders the edited tree "
+                               "differently" % (i, oi, brief(out[5], 200)))
+                    break
         # ---- oracle: reused == fresh
         if op.get("stack") is not None:
             # where the frame budget runs out legitimately depends on how warm
@@ -1288,6 +1397,8 @@ def _simpler_ops(op):
         yield dict(op, encoding=None)
     if op.get("take"):
         yield dict(op, take=op["take"] - 1)
+    if op.get("reser"):
+        yield {k: v for k, v in op.items() if k != "reser"}
     if op.get("filters"):
         for k in range(len(op["filters"])):
             yield dict(op, filters=op["filters"][:k] + op["filters"][k + 1:])
